@@ -19,6 +19,7 @@ Inductive op :=
 | OpCountDiff | OpGapsUnique | OpMutUnique
 | OpGapsProfile | OpMutProfile      (* with a count profile built from c_rows; l1 uniques, l2 new, c_kv (x00, both) *)
 | OpMutVsRef (refidx seqidx : Z)
+| OpMutList (refidx seqidx : Z)      (* c_diffs: one list per mutation, (Ref, Alt byte, Pos) for each Alt byte *)
 | OpCompat (a b : Z).
 
 Record case := mk {
@@ -43,6 +44,9 @@ Definition same_set (a b : list (byte * byte * Z)) : bool :=
 Definition float_is_ratio (num den : Z) (a b : Z) : bool :=
   let '(fn, fd) := if (0 <=? den)%Z then ((num * 2 ^ den)%Z, 1%Z) else (num, (2 ^ (- den))%Z) in
   (Z.abs (fn * b - a * fd) * 2 ^ 53 <=? Z.abs a * fd)%Z.
+
+Definition mut_enc (m : mutation) : list (byte * byte * Z) :=
+  let '(rf, pos, alt) := m in map (fun a => (rf, a, pos)) alt.
 
 Definition model_ok (c : case) : bool :=
   let rs := unrows (c_in c) in
@@ -88,6 +92,15 @@ Definition model_ok (c : case) : bool :=
           match num_mutations_vs_ref al (snd r) (snd s) with
           | None => c_err c
           | Some n => negb (c_err c) && Z.eqb (c_num c) (Z.of_nat n)
+          end
+      | _, _ => true
+      end
+  | OpMutList ri si =>
+      match nth_error rs (Z.to_nat ri), nth_error rs (Z.to_nat si) with
+      | Some r, Some s =>
+          match list_mutations_vs_ref al (snd r) (snd s) with
+          | None => c_err c
+          | Some l => negb (c_err c) && list_eqb (list_eqb pc_eqb) (c_diffs c) (map mut_enc l)
           end
       | _, _ => true
       end
@@ -248,6 +261,33 @@ Definition spec_check (c : case) : option bool :=
                                              negb (beqb b x2d) && negb (beqb b x4e) &&
                                              negb (Z.eqb (mask b) (mask rb)) && Z.eqb (Z.land (mask b) (mask rb)) 0)
                                    (combine (snd s) (snd r)))))
+          else None
+      | _, _ => None
+      end
+  | OpMutList ri si =>
+      match nth_error rs (Z.to_nat ri), nth_error rs (Z.to_nat si) with
+      | Some r, Some s =>
+          let R := snd r in let Q := snd s in
+          let okb b := beqb b x2d || (match iupac_mask_upper (up b) with Some _ => negb (beqb b x6e) && negb (beqb (up b) x55) | None => false end) in
+          let nt := Z.eqb al 1 && forallb okb R && forallb okb Q in
+          let aa := Z.eqb al 0 in
+          if nt || aa then
+            let mask b := match iupac_mask_upper (up b) with Some m => m | None => 0%Z end in
+            (* substitution or deletion at a reference residue *)
+            let mutated b rb :=
+              if nt then negb (beqb b x4e) && negb (Z.eqb (mask b) (mask rb)) && Z.eqb (Z.land (mask b) (mask rb)) 0
+              else negb (beqb b x58) && negb (beqb b rb) in
+            let refpos i := cnt (fun b => negb (beqb b x2d)) (firstn i R) in
+            let idxs := seq 0 (length R) in
+            let at_ p i := Nat.eqb (refpos i) p in
+            let expected :=
+              flat_map (fun p =>
+                 let ins := flat_map (fun i => if beqb (nth i R x00) x2d && negb (beqb (nth i Q x00) x2d) && at_ p i then [nth i Q x00] else []) idxs in
+                 (match ins with [] => [] | _ => [map (fun a => (x2d, a, Z.of_nat p)) ins] end) ++
+                 flat_map (fun i => if negb (beqb (nth i R x00) x2d) && at_ p i && mutated (nth i Q x00) (nth i R x00)
+                                    then [[(nth i R x00, nth i Q x00, Z.of_nat p)]] else []) idxs)
+                (seq 0 (S (refpos (length R)))) in
+            Some (negb (c_err c) && list_eqb (list_eqb pc_eqb) (c_diffs c) expected)
           else None
       | _, _ => None
       end
